@@ -140,9 +140,10 @@ def run(tier, only=None):
     from qlasskit.decompiler.decopt import custom_simplify_logic2
     rep = Report("C12", tier, "exploration", f"./check C12 --tier {tier}")
     jobs = []
-    plan = [(3, 1, "plain"), (3, 2, "plain"), (3, 3, "plain"), (4, 2, "plain"), (3, 2, "H.sec.Z"), (3, 2, "sec.H.sec"), (3, 2, "T.sec.barrier.sec")]
+    plan = [(3, 1, "plain"), (3, 2, "plain"), (3, 3, "plain"), (4, 2, "plain"), (3, 2, "H.sec.Z"), (3, 2, "sec.H.sec"), (3, 2, "T.sec.barrier.sec"),
+            (2, 4, "plain"), (2, 5, "plain")]          # LONGER runs on two qubits: sections that cancel to identity / to a single negation after several steps
     if tier == "thorough":
-        plan += [(3, 3, "H.sec.Z"), (3, 3, "sec.H.sec"), (4, 3, "plain")]
+        plan += [(3, 3, "H.sec.Z"), (3, 3, "sec.H.sec"), (4, 3, "plain"), (2, 6, "plain"), (2, 4, "H.sec.Z")]
     for nq, L, pat in plan:
         nch = len([c for c in c11.gate_choices(nq) if c[0] != "barrier" or pat == "plain"])
         total = nch ** L
